@@ -66,3 +66,60 @@ func init() {
 		return &Opaque{"cronexpr.Next of a symbolic instant for schedule " + sched}
 	})
 }
+
+// reflect.ValueOf(x).Pointer() for maps, pointers, channels and functions: the identity of
+// the object (a small integer handed out per object and path), which is all code can do
+// with it: compare.
+type reflectBox struct{ v Value }
+
+func init() {
+	reg("reflect.ValueOf", func(ex *Exec, fr *frame, a []Value) Value {
+		v := a[0]
+		if it, ok := v.(Iface); ok {
+			v = it.V
+		}
+		return Struct{&reflectBox{v}}
+	})
+	reg("(reflect.Value).Pointer", func(ex *Exec, fr *frame, a []Value) Value {
+		st, ok := a[0].(Struct)
+		if !ok || len(st) != 1 {
+			return &Opaque{"reflect.Value of unknown origin"}
+		}
+		b, ok := st[0].(*reflectBox)
+		if !ok {
+			return &Opaque{"reflect.Value of unknown origin"}
+		}
+		switch p := b.v.(type) {
+		case *Map, *Value, *Chan, *Closure:
+			if ex.ptrIds == nil {
+				ex.ptrIds = map[interface{}]int64{}
+			}
+			id, have := ex.ptrIds[p]
+			if !have {
+				id = int64(0x1000 + 16*len(ex.ptrIds))
+				ex.ptrIds[p] = id
+			}
+			if isNilRef(p) {
+				return int64(0)
+			}
+			return id
+		case nil:
+			return int64(0)
+		}
+		return &Opaque{"reflect.Value.Pointer of a value that is no reference"}
+	})
+}
+
+func isNilRef(p interface{}) bool {
+	switch x := p.(type) {
+	case *Map:
+		return x == nil
+	case *Value:
+		return x == nil
+	case *Chan:
+		return x == nil
+	case *Closure:
+		return x == nil
+	}
+	return p == nil
+}
